@@ -49,9 +49,9 @@ ASSUMPTIONS = [
     "end to end: coherent cost vectors (spe + 2*sloss <= dup + 2*floss), leaf syntenies non-empty with distinct families",
 ]
 OPEN = [
-    "C08_opt is about the result entry over all refinement pairs (arg-min of the evaluated cost over the union of "
-    "the per-pair candidates); that the per-pair candidates contain an optimum of each binary input is C02/C03 "
-    "(stated there, not proved)",
+    "C08_opt_refinements_spfs / _uspfs (Properties/C08Opt.lean, C08OptUn.lean) prove the optimum over ALL spec-level "
+    "refinement pairs for the EXTENDED solvers (ordered: no prescribed root order); the `base` variants on "
+    "multifurcating inputs are covered only by C08_opt (arg-min over the candidates of every refinement pair)",
 ]
 
 NAMES = ["", "P", "Q", "O0", "O1", "S0", "S1", "O2", "X9"]
